@@ -37,6 +37,21 @@ structure WQuery where
   expr : Option WExpr
   groupBy : List Bytes
 
+/-- protobuf `Result` message -/
+structure PResult where
+  queryId : Int
+  totalCount : Nat
+  groups : List (List (Bytes × Bytes) × Nat)
+  deriving Repr, DecidableEq
+
+/-- `convert.ToProtobufResult` -/
+def toProtobufResult (r : Result) (qid : Int) : PResult :=
+  { queryId := qid, totalCount := r.count, groups := r.groups.map fun g => (g.1.map fun f => (f.1, f.2), g.2) }
+
+/-- `convert.ToResult` -/
+def toResult (p : PResult) : Result :=
+  { count := p.totalCount, groups := p.groups.map fun g => (g.1.map fun f => (f.1, f.2), g.2) }
+
 section
 variable (H : Bytes → UInt64)
 
